@@ -351,6 +351,10 @@ def path_identity(prog, rep, rule="open-checks"):
                     if is_self_attr(y, "file_path") and isinstance(y.ctx, ast.Store):
                         n += 1
                         v = getattr(st, "value", None)
+                        if isinstance(v, ast.Name) and v.id not in params:
+                            defs_ = [a for a in walk_no_nested(f.node) if isinstance(a, (ast.Assign, ast.AnnAssign)) and getattr(a, "value", None) is not None
+                                     and any(isinstance(t_, ast.Name) and t_.id == v.id for t_ in (a.targets if isinstance(a, ast.Assign) else [a.target]))]
+                            v = defs_[0].value if len(defs_) == 1 else v
                         good = f.name == "__init__" and isinstance(st, (ast.Assign, ast.AnnAssign)) and v is not None and (
                             (isinstance(v, ast.Name) and v.id in params)
                             or (isinstance(v, ast.Call) and norm(v.func) in ("Path", "pathlib.Path") and len(v.args) == 1 and isinstance(v.args[0], ast.Name) and v.args[0].id in params))
